@@ -279,7 +279,7 @@ func (ts *SimpleTimers) iterate(ctx context.Context) error {
 
 		_ = wk.NewJob(func(context.Context, uint64) error {
 			if keep, err := tr.run(); err != nil || !keep {
-				_ = ts.removeTimer(tr.id)
+				_ = ts.removeSameTimer(tr)
 			}
 
 			return nil
@@ -325,6 +325,25 @@ func (ts *SimpleTimers) removeAllTimers() int64 {
 
 		removed += c
 	}
+
+	return removed
+}
+
+// removeSameTimer removes the finished timer; new timer can be registered
+// under the same id while the timer was running, it should not be removed.
+func (ts *SimpleTimers) removeSameTimer(tr *SimpleTimer) bool {
+	removed, _ := ts.timers.Remove(tr.id, func(timer *SimpleTimer, found bool) error {
+		switch {
+		case !found:
+			return nil
+		case timer != tr:
+			return ErrLockedSetIgnore
+		default:
+			timer.whenRemoved()
+
+			return nil
+		}
+	})
 
 	return removed
 }
